@@ -309,10 +309,11 @@ fn outcome_of(r: std::thread::Result<CheckResult>, ctx: &mut Ctx) -> CaseOutcome
         Ok(Err(v)) => CaseOutcome::Violation(v),
         Err(_) => {
             let p = take_panic();
-            if p.message.starts_with(crate::functor_model::CALLBACK_VIOLATION) {
+            if let Some(rest) = p.message.strip_prefix(crate::functor_model::LIB_VIOLATION) {
+                let (sub, text) = rest.split_once(':').unwrap_or(("no-panic", rest));
                 CaseOutcome::Violation(Violation {
-                    sub_check: "callback-arguments".into(),
-                    message: p.message[crate::functor_model::CALLBACK_VIOLATION.len()..].trim().to_string(),
+                    sub_check: sub.trim().to_string(),
+                    message: text.trim().to_string(),
                     dump: ctx.dump.clone(),
                 })
             } else if p.in_lib {
